@@ -601,6 +601,8 @@ impl<Db: KvDatabase> CurrentBatch<Db> {
                     .unwrap();
             } else {
                 logical_batch.active = false;
+                #[cfg(qbice_verif)]
+                crate::verif::AFTER_COMMIT_DONE.fetch_add(1, Ordering::SeqCst);
             }
         }
     }
@@ -721,6 +723,9 @@ impl<Db: KvDatabase> WriteBehind<Db> {
 
     /// Submits a write buffer to be processed by the background writer.
     pub fn submit_write_batch(&self, write_buffer: WriteBatch<Db>) {
+        #[cfg(qbice_verif)]
+        crate::verif::SUBMITTED.fetch_add(1, Ordering::SeqCst);
+
         let write_task = SerializeTask { write_buffer };
 
         self.serialize_sender.as_ref().unwrap().send(write_task).unwrap();
@@ -736,11 +741,15 @@ impl<Db: KvDatabase> WriteBehind<Db> {
 
             if shutting_down.load(Ordering::SeqCst) {
                 task.write_buffer.active = false;
+                #[cfg(qbice_verif)]
+                crate::verif::AFTER_COMMIT_DONE.fetch_add(1, Ordering::SeqCst);
                 continue;
             }
 
             task.write_buffer.after_commit(epoch);
             pool.return_buffer(task.write_buffer);
+            #[cfg(qbice_verif)]
+            crate::verif::AFTER_COMMIT_DONE.fetch_add(1, Ordering::SeqCst);
         }
     }
 
